@@ -24,6 +24,7 @@ func init() {
 }
 
 func runC15(c *core.Ctx) {
+	c15SelectionStatePrivate(c)
 	cone := shardingCone(c, [][2]string{{"indexHashedNodesCoordinator", "ComputeConsensusGroup"}, {"indexHashedNodesCoordinatorWithRater", "ComputeAdditionalLeaving"},
 		{"", "selectValidators"}, {"SelectionBasedProvider", "Get"}})
 	n := checkMapOrder(c, "C15/map-order-independent", cone, nil)
@@ -134,4 +135,55 @@ func runC15(c *core.Ctx) {
 	c.Floor("C15/cache-key-complete", 5)
 	c.Floor("C15/cache-coherent", 2)
 	c.Floor("C15/cache-cleared-on-epoch-change", 1)
+}
+
+// c15SelectionStatePrivate: the "already chosen" state of a selection lives in the provider; every
+// write to it, including the deferred clean-up, happens while the provider's mutex is held: a
+// deferred call that writes the state is registered after the lock was taken (and therefore runs
+// before the deferred unlock).
+func c15SelectionStatePrivate(c *core.Ctx) {
+	fn := anchorM(c, "sharding", "SelectionBasedProvider", "Get")
+	if fn == nil {
+		return
+	}
+	c.Analysed(fname(fn))
+	var lock ssa.Instruction
+	core.Instrs(fn, func(in ssa.Instruction) {
+		if _, isDefer := in.(*ssa.Defer); isDefer {
+			return
+		}
+		cc := core.CallOf(in)
+		if cc != nil && cc.StaticCallee() != nil && cc.StaticCallee().Name() == "Lock" && lock == nil {
+			lock = in
+		}
+	})
+	n := 0
+	core.Instrs(fn, func(in ssa.Instruction) {
+		df, isDefer := in.(*ssa.Defer)
+		if !isDefer {
+			return
+		}
+		g := df.Call.StaticCallee()
+		if g == nil || len(g.Blocks) == 0 {
+			return
+		}
+		writes := false
+		core.Instrs(g, func(in2 ssa.Instruction) {
+			if st, ok := in2.(*ssa.Store); ok {
+				if fa, ok := st.Addr.(*ssa.FieldAddr); ok && len(g.Params) > 0 && fa.X == ssa.Value(g.Params[0]) {
+					writes = true
+				}
+			}
+		})
+		if !writes {
+			return
+		}
+		n++
+		c.Check(lock != nil && core.DominatesInstr(lock, in), "C15/selection-state-written-under-lock", fmt.Sprintf("SelectionBasedProvider.Get/defer-%s", g.Name()), in.Pos(),
+			"the deferred call that rewrites the selection state is registered after the mutex was taken, so it runs before the deferred unlock",
+			"the deferred "+g.Name()+"() that rewrites the selection state is registered before the mutex is taken: it runs after the unlock and wipes the state while another selection sharing the provider is in its sampling loop (duplicate members, different groups for the same inputs)")
+	})
+	if n == 0 {
+		c.Note("SelectionBasedProvider.Get has no deferred state-writing call")
+	}
 }
